@@ -85,6 +85,7 @@ class System(ManagerSystem):
                 for L in subset:
                     trig |= ns.trigger(L)[1]
                 lines = [l.strip() for l in src.split("\n")[1 + k:]]
+                lines = [l for l in lines if l and not l.startswith("#") and l not in ("pass", "return")]
                 want = {f"{T.path_str(t[1])}": t for t in trig}
                 emitted = []
                 bad_line = None
